@@ -161,12 +161,15 @@ func cmdDNSPool(args []string) error {
 			hs[name] = true
 			pool.Hashes = append(pool.Hashes, niHash{W: bytesToInts(name), H: fmt.Sprint(filterutil.FastHash(name))})
 		}
-		for _, dt := range []string{"A", "AAAA"} {
+		for _, dt := range []string{"A", "AAAA", "none"} {
 			for _, cl := range []string{"", "phone"} {
 				for _, tg := range [][]string{{}, {"t1"}} {
 					for _, cip := range []aIP{{Nil: true}, {Fam: 4, Bytes: []int{10, 0, 0, 5}}} {
-						if !cip.Nil && (dt == "AAAA" || len(tg) > 0) {
+						if !cip.Nil && (dt != "A" || len(tg) > 0) {
 							continue // the client address is varied for A queries without tags only
+						}
+						if dt == "none" && (cl != "" || len(tg) > 0) {
+							continue // a request that names no record type (DNSEngine.Match) is asked once per name
 						}
 						if len(name) > 200 && (dt != "A" || cl != "" || len(tg) > 0 || !cip.Nil) {
 							continue // the longest name is asked once (the model walks its characters for every rule)
